@@ -47,6 +47,13 @@ static bool repair(Program &p) {
         if (!nullobj && ((size_t)si >= ss.size() || ss[(size_t)si].kind != kind)) continue;
         int bs = kind_bs(kind);
         bool mant = kind == CM || kind == PM;
+        // repeated calls (rep=N) only on setters, and short: a fuzz iteration must stay cheap
+        if (op.has("rep")) {
+            long long rep = op.geti("rep", 1);
+            bool setter = fn == "set_key" || fn == "set_tweaked_key" || fn == "set_tweak" || fn == "set_counter";
+            std::vector<std::pair<std::string, Val>> kv; for (auto &x : op.kv) if (x.first != "rep") kv.push_back(x); op.kv = kv;
+            if (setter && rep > 1) op.set("rep", std::min<long long>(rep, 600));
+        }
         SlotState dummy; SlotState &s = nullobj ? dummy : ss[(size_t)si];
         bool usable = nullobj || s.ever || s.zeroed;        // anything else is a call on arbitrary bytes: caller misuse
         // normalise attribute shapes: byte buffers must cover what the call may legally read
